@@ -864,8 +864,13 @@ def merged_with_xml_base(main: bytes, files: dict) -> bytes:
     inc = "{%s}include" % XI_NS
     counter = [0]
 
-    def text_of(data, here, xml_base):
+    def text_of(data, here, xml_base, ctx_default):
+        """`ctx_default`: the default namespace in scope where this document is pasted.  An included element
+        keeps its own name: a root in no namespace (and not declaring a default itself) undeclares the
+        default of the including context."""
         root = etree.fromstring(data)
+        undeclare = bool(ctx_default) and None not in root.nsmap
+        doc_default = "" if undeclare else ctx_default
         if xml_base is not None:
             root.set("{http://www.w3.org/XML/1998/namespace}base", xml_base)
         subs = {}
@@ -875,16 +880,21 @@ def merged_with_xml_base(main: bytes, files: dict) -> bytes:
             sub_dir = name.rsplit("/", 1)[0] + "/" if "/" in name else ""
             counter[0] += 1
             mark = "c09-include-%d" % counter[0]
-            subs[mark] = text_of(files[name], sub_dir, href if "/" in href else None)
+            subs[mark] = text_of(files[name], sub_dir, href if "/" in href else None, el.nsmap.get(None, doc_default))
             ph = etree.Element(mark)
             ph.tail = el.tail
             el.getparent().replace(el, ph)
         out = etree.tostring(root, encoding="unicode")
+        if undeclare:
+            k = 1
+            while out[k] not in " \t\r\n/>":
+                k += 1
+            out = out[:k] + ' xmlns=""' + out[k:]
         for mark, sub in subs.items():
             out = out.replace("<%s/>" % mark, sub)
         return out
 
-    return text_of(main, "", None).encode("utf-8")
+    return text_of(main, "", None, "").encode("utf-8")
 
 
 def prefixes_forgotten(main: bytes, files: dict) -> bytes:
